@@ -496,6 +496,10 @@ def run(ck: Checker) -> None:
     ck.guard("R-WORKLIST", lambda: S5.r_late_binding(ck, "R-WORKLIST", ("pyoak.node",)))
     ck.guard("R-TYPES-CACHE", lambda: r_no_early_tables(ck))
     ck.guard("R-GATHER", lambda: r_gather_not_self(ck))
+    ck.guard("R-CTRLDEP", lambda: S5.r_callback_truthiness(ck, "R-CTRLDEP", [(NODE, "ASTNode.dfs"), (NODE, "ASTNode.bfs"), (NODE, "ASTNode.gather")]))
+    ck.guard("R-GATHER", lambda: S5.r_cached_closure(ck, "R-GATHER", ("pyoak.node",)))
+    ck.guard("R-WORKLIST", lambda: S5.r_position_not_by_content(ck, "R-WORKLIST", [(NODE, "ASTNode.dfs"), (NODE, "ASTNode.bfs")]))
+    ck.guard("R-TYPES-CACHE", lambda: S5.r_class_attr_cache(ck, "R-TYPES-CACHE", ("pyoak.node", "pyoak.types", "pyoak.typing")))
     from . import state_rules as S_
     ck.guard("R-WORKLIST", lambda: S_.r_unstable_key(ck, "R-WORKLIST", [(NODE, "ASTNode.dfs"), (NODE, "ASTNode.bfs"), (NODE, "ASTNode.gather")], "a traversal enumerates the tree as it is now"))
     ck.require_count("R-WORKLIST", 3 + 3 + 6 + 2)
